@@ -2,7 +2,7 @@ from __future__ import annotations
 
 import json
 from collections.abc import Sequence
-from typing import TYPE_CHECKING, Any, Literal, Optional
+from typing import TYPE_CHECKING, Any, Literal, Optional, cast
 
 import duckdb
 import numpy as np
@@ -79,6 +79,12 @@ def write_pandas(
     except duckdb.ConnectionException as e:
         # same error as executing a statement on a closed connection
         raise snowflake.connector.errors.DatabaseError(msg=e.args[0], errno=250002, sqlstate="08003") from None
+    except duckdb.CatalogException as e:
+        # same errors as an INSERT statement that names an unknown table or column
+        msg = cast(str, e.args[0]).split("\n")[0]
+        raise snowflake.connector.errors.ProgrammingError(msg=msg, errno=2003, sqlstate="42S02") from None
+    except duckdb.BinderException as e:
+        raise snowflake.connector.errors.ProgrammingError(msg=e.args[0], errno=2043, sqlstate="02000") from None
 
     # mocks https://docs.snowflake.com/en/sql-reference/sql/copy-into-table.html#output
     mock_copy_results = [("fakesnow/file0.txt", "LOADED", count, count, 1, 0, None, None, None, None)]
